@@ -53,6 +53,8 @@ def factMethods : MethodTable := fun f ncalls st recv args =>
     | "FailAt", _ => .badArgs
     | "Cancel", [] => .ran (.ok .invalid) st true
     | "Cancel", _ => .badArgs
+    | "CancelRet", [.int .int64 k] => .ran (.ok (.int .int64 k)) st true
+    | "CancelRet", _ => .badArgs
     | "GetP", [] => match fldOf st p "P" with
       | some n => .ran (.ok (valOf (p ++ [.fld "P"]) n)) st false
       | none => .ran (unmodelled "GetP") st false
@@ -150,7 +152,10 @@ def doOp (w : World) (op : Json) : P (World × Json) := do
         | some c => do pure (some (← nat c))
         | none => pure none
       let memo := fieldOpt op "spec" != some (.bool true)
-      let rc : RunCfg := { maxCycle := maxC, retErr, cancelAt, order := orderOf op }
+      let cancelAtEvent ← match fieldOpt op "cancelAtEvent" with
+        | some c => do pure (some (← nat c))
+        | none => pure none
+      let rc : RunCfg := { maxCycle := maxC, retErr, cancelAt, cancelAtEvent, order := orderOf op }
       let cfg := mkCfg memo genTab Gen.setNumberCells factMethods inst.wm
       let r := execute rc cfg inst st
       -- the from-scratch semantics on the same call (property oracle)
